@@ -485,6 +485,7 @@ func runC13(h *H) {
 	runConcStore(h, "C13")
 	runConcDirect(h, "C13")
 	runConcStoredBody(h, "C13")
+	runConcGetVsReplace(h, "C13")
 }
 
 // ---------------------------------------------------------------------------------------------
